@@ -620,21 +620,33 @@ pub fn run_c16(_args: &Args, tier: &str, seed: u64) -> Report {
             }
         }
     }
-    // a value decoded from tag byte b is emitted with tag byte b again (all 256 bytes, stand-alone decoder)
+    // a value decoded from tag byte b is emitted with tag byte b again, whatever its content (all 256 bytes, stand-alone decoder;
+    // bodies: six fill patterns at eight lengths plus text samples with spaces, slashes, commas, non-ASCII, NUL and control characters)
+    let mut bodies: Vec<Vec<u8>> = vec![];
+    for len in [0usize, 1, 2, 4, 8, 9, 11, 16] {
+        for f in 0..crate::corpus::FILLS {
+            bodies.push(crate::corpus::fill(f, len));
+        }
+    }
+    for t in ["a", "Custom Photo 4x6", "image/jpeg", "gr\u{fc}n", "a,b", "*", "na_letter_8.5x11in", "UPPER", "sp ace", "tab\there", "q\"uote", "utf-8", "en-US", "ipp://h/p", "\u{7f}", "\u{85}", "\u{20ac}", "1", "-1", "true", "none", "", "x=y", "a;b", "%41", "\\x41"] {
+        bodies.push(t.as_bytes().to_vec());
+    }
     for b in 0..=255u8 {
         rep.eval();
-        for len in [0usize, 1, 4, 8, 9, 11] {
-            if let Ok(v) = IppValue::parse(b, bytes::Bytes::from(vec![0u8; len])) {
+        for body in &bodies {
+            if let Ok(v) = IppValue::parse(b, bytes::Bytes::from(body.clone())) {
+                rep.count("decoded_values_re_emitted", 1);
                 let t = v.to_tag();
                 if t != b {
-                    rep.violation(format!("C16:emitted-tag-differs:{b:#04x}"), format!("a value decoded from tag {b:#04x} ({v:?}) is emitted with tag {t:#04x}"), none());
+                    rep.violation(format!("C16:emitted-tag-differs:{b:#04x}"), format!("a value decoded from tag {b:#04x} and body {body:02x?} ({v:?}) is emitted with tag {t:#04x}"), none());
+                    break;
                 }
                 // and the attribute framing starts with that byte
                 let a = IppAttribute::new("x", v).to_bytes();
                 if a.first() != Some(&b) {
-                    rep.violation(format!("C16:emitted-tag-differs:{b:#04x}"), format!("attribute bytes for a value decoded from tag {b:#04x} start with {:?}", a.first()), none());
+                    rep.violation(format!("C16:emitted-tag-differs:{b:#04x}"), format!("attribute bytes for a value decoded from tag {b:#04x} and body {body:02x?} start with {:?}", a.first()), none());
+                    break;
                 }
-                break;
             }
         }
     }
@@ -691,7 +703,7 @@ pub fn run_c16(_args: &Args, tier: &str, seed: u64) -> Report {
         }
     }
     rep.sample(J::obj().with("status_0x040A", format!("{:?}", StatusCode::from_u16(0x040A))).with("operation_0x4002", format!("{:?}", Operation::from_u16(0x4002))).with("value_tag_0x4a", format!("{:?}", ValueTag::from_u8(0x4a))).with("finishings_85", format!("{:?}", Finishings::from_i32(85))));
-    rep.rule = "Complete enumeration against registry tables embedded in the harness (RFC 8010 3.5, RFC 8011 5/App. B, PWG 5100.1, CUPS): all 65536 16-bit values through StatusCode::from_u16, IppHeader::status_code, is_success and Operation::from_u16; all 256 bytes through DelimiterTag / ValueTag; -4..=65535 (+extremes) through the five attribute enums; the tag emitted for each of the 21 non-set kinds; every recognised variant cast back to its integer. Rules: registered code -> the variant the registry names for it (name comparison modulo case/punctuation); other codes -> unknown or a symbol that names no registered code; success <=> code in {0,1,2}; from(x) as int == x. distinct_nontrivial = registered status codes checked.".into();
+    rep.rule = "Complete enumeration against registry tables embedded in the harness (RFC 8010 3.5, RFC 8011 5/App. B, PWG 5100.1, CUPS): all 65536 16-bit values through StatusCode::from_u16, IppHeader::status_code, is_success and Operation::from_u16; all 256 bytes through DelimiterTag / ValueTag; -4..=65535 (+extremes) through the five attribute enums; the tag emitted for each of the 21 non-set kinds and for every value decoded from each of the 256 tag bytes over 74 bodies (fill patterns, text with spaces / slashes / commas / non-ASCII / control characters); every recognised variant cast back to its integer. Rules: registered code -> the variant the registry names for it (name comparison modulo case/punctuation); other codes -> unknown or a symbol that names no registered code; success <=> code in {0,1,2}; from(x) as int == x. distinct_nontrivial = registered status codes checked.".into();
     rep
 }
 
